@@ -77,10 +77,11 @@ class Zip:
         self.cd_start, self.cd_size, self.n = cdoff, cdsize, n
         self.entries = []
         p = cdoff
-        if cdoff + cdsize > end:
+        if cdoff > end:
             raise ZipError("central directory beyond file")
         count = 0
-        while p < cdoff + cdsize:
+        cd_limit = self.z64eocd if self.z64eocd is not None else self.eocd
+        while p < cd_limit and b[p:p + 4] == b"PK\x01\x02":
             # the directory is the run of entries inside [offset, offset+size); the entry count is a 16-bit cross-check for readers
             if b[p:p + 4] != b"PK\x01\x02" or p + 46 > end:
                 raise ZipError("bad central directory entry at %d" % p)
@@ -127,8 +128,8 @@ class Zip:
             if e.data_start is None:
                 e.data_end = e.rec_end = None
             self.entries.append(e)
-        if p != cdoff + cdsize:
-            raise ZipError("central directory size mismatch")
+        cdsize = p - cdoff          # the directory is the run of entries; the size field is a cross-check that readers do not all make
+        self.cd_size = cdsize
         if (count & 0xffff) != (n & 0xffff):
             raise ZipError("entry count mismatch")
         # data descriptors / gaps: a record extends to the next record (or the central directory / a signing block)
